@@ -489,6 +489,13 @@ Proof.
     apply Z.ltb_ge in E4. rewrite E4. reflexivity.
 Qed.
 
+Lemma mb_conditions_inv : forall s entry m c ds l,
+  mb_conditions s entry m c ds l ->
+  getc s (mb_cons m) = Some c /\ get_byzantine m = Ok l /\ c_ds c = Some ds.
+Proof.
+  intros s entry m c ds l [chain [cl [A1 [A2 [A3 [A4 [A5 [A6 [A7 [A8 [A9 [A10 [A11 A12]]]]]]]]]]]]]. auto.
+Qed.
+
 Lemma handle_mb_spec : forall s m,
   let r := handle_mb s m in
   (snd (fst r) = 0 <->
@@ -504,47 +511,589 @@ Lemma handle_mb_spec : forall s m,
 Proof.
   intros s m r. subst r. unfold handle_mb.
   assert (NC : forall c ds l, mb_conditions s 1 m c ds l -> mb_check s m = 0).
-  { intros c ds l [chain [cl H]]. decompose [and] H; clear H. apply mb_check_0.
+  { intros c ds l [chain [cl [Hc [Hch [E1 [Hcl [E2 [E3 [E4 [E5 [E6 _]]]]]]]]]]]. apply mb_check_0.
     exists c, chain, cl. repeat split; auto. }
   destruct (mb_check s m =? 0) eqn:C; simpl negb; cbv iota.
-  2:{ apply Z.eqb_neq in C. simpl. repeat split; auto; try contradiction.
-      intros [c [ds [l [H _]]]]. exfalso. apply C. eauto. }
-  apply Z.eqb_eq in C. destruct (proj1 (mb_check_0 _ _) C) as [c [chain [cl H]]].
-  decompose [and] H; clear H.
+  2:{ apply Z.eqb_neq in C. simpl. split; [|split; auto].
+      - split; [intro; contradiction|]. intros [c [ds [l [H _]]]]. exfalso. apply C. eauto.
+      - intro; contradiction. }
+  apply Z.eqb_eq in C.
+  destruct (proj1 (mb_check_0 _ _) C) as [c [chain [cl [Hc [Hch [E1 [Hcl [E2 [E3 [E4 [E5 E6]]]]]]]]]]].
   destruct (get_byzantine m) as [l|x] eqn:B.
-  2:{ simpl. assert (x <> 0).
+  2:{ simpl. assert (Hx : x <> 0).
       { unfold get_byzantine in B. destruct (mb_lb_ok m); simpl in B; [|inversion B; unfold E_LB; lia].
         destruct (negb (mb_conflict m) && negb (mb_rounds_eq m)); [discriminate|].
         apply byz_loop_err in B. subst. unfold E_SIG. lia. }
-      repeat split; auto; try contradiction.
-      intros [c' [ds [l [[ch' [cl' Hc]] _]]]]. decompose [and] Hc. congruence. }
-  rewrite H0.
+      split; [|split; auto].
+      - split; [intro; contradiction|].
+        intros [c' [ds [l [MC _]]]]. apply mb_conditions_inv in MC. destruct MC as [_ [X _]]. congruence.
+      - intro; contradiction. }
+  rewrite Hc.
   destruct (c_ds c) as [ds|] eqn:D.
-  2:{ simpl. unfold E_NOPARAMS. repeat split; auto; try (intro X; discriminate X).
-      intros [c' [ds [l' [[ch' [cl' Hc]] _]]]]. decompose [and] Hc. congruence. }
+  2:{ simpl. unfold E_NOPARAMS. split; [|split; auto].
+      - split; [intro X; discriminate X|].
+        intros [c' [ds [l' [MC _]]]]. apply mb_conditions_inv in MC. destruct MC as [Y [_ X]]. congruence.
+      - intro X; discriminate X. }
   assert (MC : mb_conditions s 1 m c ds l).
   { exists chain, cl. repeat split; auto. intro X; discriminate X. }
   assert (U : forall c' ds' l', mb_conditions s 1 m c' ds' l' -> c' = c /\ ds' = ds /\ l' = l).
-  { intros c' ds' l' [ch' [cl' Hc]]. decompose [and] Hc. repeat split; congruence. }
+  { intros c' ds' l' MC'. apply mb_conditions_inv in MC'. destruct MC' as [Y [Z1 Z2]].
+    assert (c' = c) by congruence. subst c'. repeat split; congruence. }
   destruct (punish s c ds l 0) as [[s' n]|x] eqn:P.
   - destruct (punish_spec _ _ _ _ _ _ _ P) as [T [Cs [L [V [N [E X]]]]]].
     assert (NB : forall a, In a l -> ~ bad s (resolve c a)).
     { intros a Ha Ba. destruct (proj2 (punish_err c ds l s 0)) as [y Hy]; [eauto|]. congruence. }
     destruct (n =? 0) eqn:En; [apply Z.eqb_eq in En | apply Z.eqb_neq in En]; simpl.
-    + subst n. unfold E_NOBODY. repeat split; auto; try (intro Y; discriminate Y).
-      intros [c' [ds' [l' [Hc [Ex _]]]]]. destruct (U _ _ _ Hc) as [? [? ?]]; subst.
-      apply X in Ex. lia.
-    + repeat split; auto; try contradiction.
-      * intros _. exists c, ds, l. repeat split; auto. apply X. lia.
-      * destruct (U _ _ _ H) as [? [? ?]]; subst; auto.
-      * destruct (U _ _ _ H) as [? [? ?]]; subst; auto.
-      * destruct (U _ _ _ H) as [? [? ?]]; subst; auto.
-      * destruct (U _ _ _ H) as [? [? ?]]; subst; auto.
+    + subst n. unfold E_NOBODY. split; [|split; auto].
+      * split; [intro Y; discriminate Y|].
+        intros [c' [ds' [l' [Hc' [Ex _]]]]]. destruct (U _ _ _ Hc') as [? [? ?]]; subst.
+        apply X in Ex. lia.
+      * intro Y; discriminate Y.
+    + split; [|split].
+      * split; auto. intros _. exists c, ds, l. repeat split; auto. apply X. lia.
+      * intros _ c' ds' l' Hc'. destruct (U _ _ _ Hc') as [? [? ?]]; subst. auto.
+      * intro; contradiction.
   - simpl. assert (Hx : x <> 0).
     { clear - P. revert P. generalize 0 at 1. generalize s. induction l as [|a t IH]; simpl; intros s0 n0 P; [discriminate|].
-      destruct (slash_validator s0 (resolve c a) ds); [|eauto].
+      destruct (slash_validator s0 (resolve c a) ds) as [s1|]; [|eauto].
       destruct (jail_and_tombstone s1 (resolve c a) ds); [eauto|]. inversion P. unfold E_PANIC. lia. }
-    repeat split; auto; try contradiction.
-    intros [c' [ds' [l' [Hc [_ NB]]]]]. destruct (U _ _ _ Hc) as [? [? ?]]; subst.
-    destruct (proj1 (punish_err c ds l s 0)) as [a [Ha Ba]]; [eauto|]. exfalso. eapply NB; eauto.
+    split; [|split; auto].
+    + split; [intro; contradiction|].
+      intros [c' [ds' [l' [Hc' [_ NB]]]]]. destruct (U _ _ _ Hc') as [? [? ?]]; subst.
+      destruct (proj1 (punish_err c ds l s 0)) as [a [Ha Ba]]; [eauto|]. exfalso. eapply NB; eauto.
+    + intro; contradiction.
+Qed.
+
+(* ---------------------------------------------------------------- statements about [step] *)
+
+Lemma step_dv_proj : forall s entry e,
+  code (step s (ODV entry e)) = snd (fst (submit_dv s entry e)) /\
+  st (step s (ODV entry e)) = fst (fst (submit_dv s entry e)).
+Proof. intros. unfold code, st. simpl. destruct (submit_dv s entry e) as [[a b] d]. auto. Qed.
+
+Lemma step_mb_proj : forall s entry m,
+  code (step s (OMB entry m)) = snd (fst (submit_mb s entry m)) /\
+  st (step s (OMB entry m)) = fst (fst (submit_mb s entry m)).
+Proof. intros. unfold code, st. simpl. destruct (submit_mb s entry m) as [[a b] d]. auto. Qed.
+
+Lemma punished_rec_fields : forall now ds v,
+  punished_rec now ds v =
+  mkV (v_status v) true (now + ds_jail ds) (v_tomb v || ds_tomb ds)
+      (slash_tokens (ds_frac ds) (v_lastpow v + Z.quot (v_unb v + v_red v) PR) (v_tokens v))
+      (v_lastpow v) (v_unb v) (v_red v) (v_sinfo v)
+      (v_log v ++ [(v_lastpow v + Z.quot (v_unb v + v_red v) PR, ds_frac ds)]).
+Proof. reflexivity. Qed.
+
+(* --- double voting --- *)
+
+Lemma dv_accept_iff : forall s entry e,
+  code (step s (ODV entry e)) = 0 <-> dv_conditions s entry e /\ punishable_at s (dv_target s e).
+Proof. intros. rewrite (proj1 (step_dv_proj s entry e)). apply submit_dv_spec. Qed.
+
+Lemma dv_exact_signer : forall s entry e,
+  code (step s (ODV entry e)) = 0 ->
+  let s' := st (step s (ODV entry e)) in
+  s_time s' = s_time s /\ s_cons s' = s_cons s /\ length (s_vals s') = length (s_vals s) /\
+  forall i, i <> dv_target s e -> getv s' i = getv s i.
+Proof.
+  intros s entry e H s'. subst s'. destruct (step_dv_proj s entry e) as [P1 P2]. rewrite P1 in H. rewrite P2.
+  destruct (submit_dv_spec s entry e) as [_ [B _]]. destruct (B H) as [v [Hv Hs]]. rewrite Hs.
+  rewrite punish_one_time, punish_one_cons, punish_one_len. repeat split; auto.
+  intros i Hi. apply punish_one_getv_other; auto.
+Qed.
+
+Lemma dv_power : forall s entry e,
+  code (step s (ODV entry e)) = 0 ->
+  exists c ds v,
+    getc s (dv_cons e) = Some c /\ c_ds c = Some ds /\ dv_target s e = resolve c (dv_addr e) /\
+    getv s (dv_target s e) = Some v /\
+    getv (st (step s (ODV entry e))) (dv_target s e) =
+      Some (mkV (v_status v) true (s_time s + ds_jail ds) (ds_tomb ds)
+                (slash_tokens (ds_frac ds) (v_lastpow v + Z.quot (v_unb v + v_red v) PR) (v_tokens v))
+                (v_lastpow v) (v_unb v) (v_red v) (v_sinfo v)
+                (v_log v ++ [(v_lastpow v + Z.quot (v_unb v + v_red v) PR, ds_frac ds)])).
+Proof.
+  intros s entry e H. destruct (step_dv_proj s entry e) as [P1 P2]. rewrite P1 in H. rewrite P2.
+  destruct (submit_dv_spec s entry e) as [A [B _]]. destruct (B H) as [v [Hv Hs]]. rewrite Hs.
+  apply A in H. destruct H as [[c [cl [chain [ds [Hc [_ [_ [_ [_ [_ [_ [_ [_ [_ [_ [_ Hds]]]]]]]]]]]]]]]] [w [Hw [_ [Tw _]]]]].
+  rewrite Hv in Hw. inversion Hw; subst w.
+  exists c, ds, v. repeat split; auto.
+  - unfold dv_target. rewrite Hc. auto.
+  - rewrite (punish_one_getv_same _ _ _ _ Hv). rewrite punished_rec_fields.
+    unfold ds_of. rewrite Hc, Hds, Tw. reflexivity.
+Qed.
+
+Lemma reject_unchanged : forall s o, code (step s o) <> 0 -> st (step s o) = s.
+Proof.
+  intros s o H. destruct o as [t|i v|c x|entry e|entry m|m].
+  - unfold code in H; simpl in H. contradiction.
+  - unfold code, st in *. simpl in *. destruct (getv s i); simpl in *; contradiction || auto.
+  - unfold code, st in *. simpl in *. destruct (c <? 0); simpl in *; contradiction || auto.
+  - destruct (step_dv_proj s entry e) as [P1 P2]. rewrite P1 in H. rewrite P2.
+    apply submit_dv_spec; auto.
+  - destruct (step_mb_proj s entry m) as [P1 P2]. rewrite P1 in H. rewrite P2.
+    unfold submit_mb in *. destruct ((entry =? 0) && negb (mb_vb_ok m)); auto.
+    apply handle_mb_spec; auto.
+  - unfold st. simpl. destruct (get_byzantine m); auto.
+Qed.
+
+Lemma gbv_unchanged : forall s m, st (step s (OGBV m)) = s.
+Proof. intros. unfold st. simpl. destruct (get_byzantine m); auto. Qed.
+
+(* --- misbehaviour --- *)
+
+Lemma mb_conditions_entry : forall s entry m c ds l,
+  mb_conditions s entry m c ds l <-> mb_conditions s 1 m c ds l /\ (entry = 0 -> mb_vb_ok m = true).
+Proof.
+  intros. unfold mb_conditions. split.
+  - intros [chain [cl [A1 [A2 [A3 [A4 [A5 [A6 [A7 [A8 [A9 [A10 [A11 A12]]]]]]]]]]]]]. split; auto.
+    exists chain, cl. repeat split; auto. intro X; discriminate X.
+  - intros [[chain [cl [A1 [A2 [A3 [A4 [A5 [A6 [A7 [A8 [A9 [A10 [A11 A12]]]]]]]]]]]]] V].
+    exists chain, cl. repeat split; auto.
+Qed.
+
+Lemma submit_mb_code : forall s entry m,
+  snd (fst (submit_mb s entry m)) = 0 <->
+  (entry = 0 -> mb_vb_ok m = true) /\ snd (fst (handle_mb s m)) = 0.
+Proof.
+  intros. unfold submit_mb.
+  destruct (entry =? 0) eqn:E; [apply Z.eqb_eq in E | apply Z.eqb_neq in E]; simpl.
+  - destruct (mb_vb_ok m); simpl.
+    + tauto.
+    + unfold E_VB. split; [intro X; discriminate X | intros [X _]; specialize (X E); discriminate X].
+  - split; auto. intros [_ X]; auto.
+Qed.
+
+Lemma submit_mb_state : forall s entry m,
+  snd (fst (submit_mb s entry m)) = 0 -> fst (fst (submit_mb s entry m)) = fst (fst (handle_mb s m)).
+Proof.
+  intros s entry m. unfold submit_mb. destruct ((entry =? 0) && negb (mb_vb_ok m)); auto.
+  simpl. unfold E_VB. intro X; discriminate X.
+Qed.
+
+Lemma mb_accept_iff : forall s entry m,
+  code (step s (OMB entry m)) = 0 <->
+  exists c ds l, mb_conditions s entry m c ds l /\
+    (exists a, In a l /\ gpass s (resolve c a)) /\
+    (forall a, In a l -> ~ bad s (resolve c a)).
+Proof.
+  intros. rewrite (proj1 (step_mb_proj s entry m)), submit_mb_code.
+  destruct (handle_mb_spec s m) as [A _]. rewrite A. split.
+  - intros [V [c [ds [l [MC R]]]]]. exists c, ds, l. split; auto. apply mb_conditions_entry; auto.
+  - intros [c [ds [l [MC R]]]]. apply mb_conditions_entry in MC. destruct MC as [MC V]. split; auto.
+    exists c, ds, l. auto.
+Qed.
+
+Lemma mb_exact : forall s entry m c ds l,
+  code (step s (OMB entry m)) = 0 -> mb_conditions s entry m c ds l ->
+  let s' := st (step s (OMB entry m)) in
+  s_time s' = s_time s /\ s_cons s' = s_cons s /\ length (s_vals s') = length (s_vals s) /\
+  forall i, getv s' i = option_map (punish_n (s_time s) ds (count_res c i l)) (getv s i).
+Proof.
+  intros s entry m c ds l H MC s'. subst s'. destruct (step_mb_proj s entry m) as [P1 P2].
+  rewrite P1 in H. rewrite P2. rewrite (submit_mb_state _ _ _ H).
+  apply submit_mb_code in H. destruct H as [_ H].
+  destruct (handle_mb_spec s m) as [_ [B _]]. apply (B H). apply mb_conditions_entry in MC. tauto.
+Qed.
+
+Lemma count_res_0 : forall c i l, (forall a, In a l -> resolve c a <> i) -> count_res c i l = O.
+Proof.
+  induction l as [|a t IH]; intros H; auto. rewrite count_res_cons.
+  destruct (resolve c a =? i) eqn:E; [apply Z.eqb_eq in E; exfalso; eapply H; eauto; left; auto|].
+  apply IH. intros b Hb. apply H. right; auto.
+Qed.
+
+Lemma count_res_pos : forall c i l a, In a l -> resolve c a = i -> (1 <= count_res c i l)%nat.
+Proof.
+  induction l as [|b t IH]; intros a Ha E; [destruct Ha|]. destruct Ha as [Ha|Ha]; rewrite count_res_cons.
+  - subst b. rewrite E, Z.eqb_refl. lia.
+  - destruct (resolve c b =? i); [lia | eapply IH; eauto].
+Qed.
+
+(* frame: a validator to which no byzantine key resolves, or whose guards fail, keeps its record *)
+Lemma mb_frame : forall s entry m c ds l i,
+  code (step s (OMB entry m)) = 0 -> mb_conditions s entry m c ds l ->
+  ~ (exists a, In a l /\ resolve c a = i /\ gpass s i) ->
+  getv (st (step s (OMB entry m))) i = getv s i.
+Proof.
+  intros s entry m c ds l i H MC N. destruct (mb_exact _ _ _ _ _ _ H MC) as [_ [_ [_ V]]]. rewrite V.
+  destruct (getv s i) as [v|] eqn:Hv; simpl; auto. f_equal.
+  destruct (punishable v) eqn:P.
+  - rewrite count_res_0; auto. intros a Ha E. apply N. exists a. repeat split; auto.
+    eapply punishable_gpass; eauto.
+  - apply punish_n_not_punishable; auto.
+Qed.
+
+Lemma punish_n_tomb : forall now ds k v,
+  ds_tomb ds = true -> punishable v = true -> (1 <= k)%nat -> punish_n now ds k v = punished_rec now ds v.
+Proof.
+  intros now ds [|k] v T P K; [lia|]. simpl. rewrite P. apply punish_n_not_punishable.
+  unfold punishable, guard_rec. simpl. rewrite T, orb_true_r.
+  destruct (v_status v =? UNBONDED); reflexivity.
+Qed.
+
+Lemma punish_n_first : forall now ds k v,
+  punishable v = true -> (1 <= k)%nat ->
+  punish_n now ds k v = punish_n now ds (k - 1) (punished_rec now ds v).
+Proof. intros now ds [|k] v P K; [lia|]. simpl. rewrite P. f_equal. lia. Qed.
+
+Lemma punish_n_log : forall now ds k v, exists more, v_log (punish_n now ds k v) = v_log v ++ more.
+Proof.
+  induction k as [|k IH]; intros v; simpl; [exists []; rewrite app_nil_r; auto|].
+  destruct (punishable v); [|exists []; rewrite app_nil_r; auto].
+  destruct (IH (punished_rec now ds v)) as [more Hm]. rewrite Hm. simpl.
+  rewrite <- app_assoc. eauto.
+Qed.
+
+Lemma punish_n_jailed : forall now ds k v, v_jailed v = true -> v_jailed (punish_n now ds k v) = true.
+Proof.
+  induction k as [|k IH]; intros v J; simpl; auto. destruct (punishable v); auto.
+Qed.
+
+(* a validator to which a byzantine key resolves and whose guards pass IS punished, with the consumer's parameters *)
+Lemma mb_punished : forall s entry m c ds l i a v,
+  code (step s (OMB entry m)) = 0 -> mb_conditions s entry m c ds l ->
+  In a l -> resolve c a = i -> getv s i = Some v -> guard_rec v = 0 ->
+  exists v' more,
+    getv (st (step s (OMB entry m))) i = Some v' /\ v_jailed v' = true /\
+    v_log v' = v_log v ++ (v_lastpow v + Z.quot (v_unb v + v_red v) PR, ds_frac ds) :: more /\
+    (ds_tomb ds = true ->
+       v' = mkV (v_status v) true (s_time s + ds_jail ds) true
+                (slash_tokens (ds_frac ds) (v_lastpow v + Z.quot (v_unb v + v_red v) PR) (v_tokens v))
+                (v_lastpow v) (v_unb v) (v_red v) (v_sinfo v)
+                (v_log v ++ [(v_lastpow v + Z.quot (v_unb v + v_red v) PR, ds_frac ds)])).
+Proof.
+  intros s entry m c ds l i a v H MC Ha E Hv G. destruct (mb_exact _ _ _ _ _ _ H MC) as [_ [_ [_ V]]].
+  assert (K := count_res_pos c i l a Ha E).
+  assert (P : punishable v = true) by (unfold punishable; rewrite G; reflexivity).
+  destruct (punish_n_log (s_time s) ds (count_res c i l - 1) (punished_rec (s_time s) ds v)) as [more Hm].
+  exists (punish_n (s_time s) ds (count_res c i l) v), more. rewrite V, Hv. simpl. split; auto.
+  rewrite (punish_n_first _ _ _ _ P K). split; [apply punish_n_jailed; reflexivity|]. split.
+  - rewrite Hm. simpl. rewrite <- app_assoc. reflexivity.
+  - intro T. rewrite <- (punish_n_first _ _ _ _ P K). rewrite (punish_n_tomb _ _ _ _ T P K).
+    rewrite punished_rec_fields, T, orb_true_r. reflexivity.
+Qed.
+
+(* --- GetByzantineValidators --- *)
+
+Lemma byzantine_set : forall m l,
+  get_byzantine m = Ok l ->
+  (mb_conflict m = false /\ mb_rounds_eq m = false -> l = []) /\
+  (mb_conflict m = true \/ mb_rounds_eq m = true ->
+     (forall a, In a l <->
+        (exists e2, In e2 (mb_sigs2 m) /\ signed e2 = true /\ g_addr e2 = a) /\
+        (exists e1, In e1 (mb_sigs1 m) /\ signed e1 = true /\ g_addr e1 = a)) /\
+     (forall e2 e1, In e2 (mb_sigs2 m) -> signed e2 = true -> last_signer (g_addr e2) (mb_sigs1 m) = Some e1 ->
+                    g_ok e1 = true /\ g_ok e2 = true)).
+Proof.
+  intros m l H. destruct (get_byzantine_spec _ _ H) as [_ [A B]]. split; auto.
+  intro C. destruct (B C) as [E F]. split; auto. intro a. rewrite E. apply common_In.
+Qed.
+
+Lemma byzantine_reject : forall m,
+  mb_lb_ok m = true -> (mb_conflict m = true \/ mb_rounds_eq m = true) ->
+  ((exists x, get_byzantine m = Err x) <->
+   exists e2 e1, In e2 (mb_sigs2 m) /\ signed e2 = true /\ last_signer (g_addr e2) (mb_sigs1 m) = Some e1 /\
+                 (g_ok e1 = false \/ g_ok e2 = false)).
+Proof.
+  intros m LB C. unfold get_byzantine. rewrite LB. simpl.
+  assert (AM : negb (mb_conflict m) && negb (mb_rounds_eq m) = false).
+  { destruct C as [C|C]; rewrite C; simpl; auto. destruct (mb_conflict m); auto. }
+  rewrite AM. split.
+  - intros [x Hx].
+    destruct (byz_loop_ok_iff (mb_sigs1 m) (mb_sigs2 m)) as [_ B].
+    (* classical-free: decide by computation on the finite list *)
+    assert (D : forall l2, (exists x, byz_loop (mb_sigs1 m) l2 = Err x) ->
+              exists e2 e1, In e2 l2 /\ signed e2 = true /\ last_signer (g_addr e2) (mb_sigs1 m) = Some e1 /\
+                            (g_ok e1 = false \/ g_ok e2 = false)).
+    { induction l2 as [|e t IH]; simpl; intros [y Hy]; [discriminate|].
+      destruct (signed e) eqn:Sg; simpl in Hy.
+      - destruct (last_signer (g_addr e) (mb_sigs1 m)) as [e1|] eqn:L.
+        + destruct (g_ok e1) eqn:O1; simpl in Hy.
+          * destruct (g_ok e) eqn:O2; simpl in Hy.
+            -- destruct (byz_loop (mb_sigs1 m) t) eqn:BL; [discriminate|].
+               destruct IH as [e2 [e1' [I R]]]; [eauto|]. exists e2, e1'. split; auto.
+            -- exists e, e1. repeat split; auto.
+          * exists e, e1. repeat split; auto.
+        + destruct IH as [e2 [e1' [I R]]]; [eauto|]. exists e2, e1'. split; auto.
+      - destruct IH as [e2 [e1' [I R]]]; [eauto|]. exists e2, e1'. split; auto. }
+    apply D. eauto.
+  - intros [e2 [e1 [I [Sg [L O]]]]].
+    destruct (byz_loop (mb_sigs1 m) (mb_sigs2 m)) as [l|x] eqn:BL; [|eauto].
+    exfalso. destruct (proj1 (byz_loop_ok_iff _ _) (ex_intro _ l BL) e2 e1 I Sg L) as [O1 O2].
+    destruct O; congruence.
+Qed.
+
+(* --- at most once --- *)
+
+Definition tombstoned (s : state) (p : Z) : Prop := exists v, getv s p = Some v /\ v_tomb v = true.
+Definition is_evidence (o : op) : Prop :=
+  match o with ODV _ _ | OMB _ _ | OGBV _ => True | _ => False end.
+
+Lemma tomb_not_punishable : forall v, v_tomb v = true -> punishable v = false.
+Proof.
+  intros v T. unfold punishable, guard_rec. rewrite T. destruct (v_status v =? UNBONDED); reflexivity.
+Qed.
+
+Lemma tomb_frame : forall s o p, tombstoned s p -> is_evidence o -> getv (st (step s o)) p = getv s p.
+Proof.
+  intros s o p [v [Hv T]] Ev. destruct o as [t|i w|c x|entry e|entry m|m]; simpl in Ev; try contradiction.
+  - destruct (Z.eq_dec (code (step s (ODV entry e))) 0) as [H|H].
+    + destruct (dv_exact_signer _ _ _ H) as [_ [_ [_ F]]]. apply F. intro E.
+      apply dv_accept_iff in H. destruct H as [_ [w [Hw [_ [Tw _]]]]]. rewrite <- E in Hw. congruence.
+    + rewrite reject_unchanged; auto.
+  - destruct (Z.eq_dec (code (step s (OMB entry m))) 0) as [H|H].
+    + destruct (proj1 (mb_accept_iff _ _ _) H) as [c [ds [l [MC _]]]].
+      eapply mb_frame; eauto. intros [a [_ [_ [w [Hw G]]]]]. rewrite Hv in Hw. inversion Hw; subst w.
+      apply guard_rec_0 in G. destruct G; congruence.
+    + rewrite reject_unchanged; auto.
+  - rewrite gbv_unchanged. auto.
+Qed.
+
+Lemma step_keeps_tomb : forall s o p, tombstoned s p -> tombstoned (st (step s o)) p.
+Proof.
+  intros s o p T. destruct o as [t|i w|c x|entry e|entry m|m];
+    try (destruct T as [v [Hv Tv]]; exists v; split; auto; rewrite tomb_frame; simpl; auto; exists v; auto; fail).
+  - destruct T as [v [Hv Tv]]. unfold st; simpl. destruct (getv s i) as [old|] eqn:Ho; simpl; [|exists v; auto].
+    destruct (Z.eq_dec p i) as [E|E].
+    + subst i. exists (ext_rec old w). split; [eapply getv_setv_same; eauto|].
+      rewrite Hv in Ho. inversion Ho; subst old. simpl. rewrite Tv. reflexivity.
+    + exists v. rewrite getv_setv_other; auto.
+  - destruct T as [v [Hv Tv]]. unfold st; simpl. destruct (c <? 0); simpl; exists v; auto.
+Qed.
+
+Lemma run_keeps_tomb : forall ops s p, tombstoned s p -> tombstoned (run_ops ops s) p.
+Proof.
+  induction ops as [|o t IH]; intros s p T; simpl; auto. apply IH. apply step_keeps_tomb; auto.
+Qed.
+
+Lemma once : forall s p ops,
+  tombstoned s p ->
+  let s2 := run_ops ops s in
+  (forall o, is_evidence o -> getv (st (step s2 o)) p = getv s2 p) /\
+  (forall entry e, dv_target s2 e = p -> code (step s2 (ODV entry e)) <> 0 /\ st (step s2 (ODV entry e)) = s2).
+Proof.
+  intros s p ops T s2. assert (T2 := run_keeps_tomb ops s p T). fold s2 in T2. split.
+  - intros o Ev. apply tomb_frame; auto.
+  - intros entry e E.
+    assert (N : code (step s2 (ODV entry e)) <> 0).
+    { intro H. apply dv_accept_iff in H. destruct H as [_ [w [Hw [_ [Tw _]]]]].
+      destruct T2 as [v [Hv Tv]]. rewrite E in Hw. congruence. }
+    split; auto. apply reject_unchanged; auto.
+Qed.
+
+Lemma dv_tombstones : forall s entry e,
+  code (step s (ODV entry e)) = 0 -> ds_tomb (ds_of s (dv_cons e)) = true ->
+  tombstoned (st (step s (ODV entry e))) (dv_target s e).
+Proof.
+  intros s entry e H T. destruct (dv_power _ _ _ H) as [c [ds [v [Hc [Hds [_ [_ Hp]]]]]]].
+  unfold ds_of in T. rewrite Hc, Hds in T. eexists. split; [exact Hp|]. simpl. auto.
+Qed.
+
+Lemma mb_tombstones : forall s entry m c ds l a v,
+  code (step s (OMB entry m)) = 0 -> mb_conditions s entry m c ds l -> ds_tomb ds = true ->
+  In a l -> getv s (resolve c a) = Some v -> guard_rec v = 0 ->
+  tombstoned (st (step s (OMB entry m))) (resolve c a).
+Proof.
+  intros s entry m c ds l a v H MC T Ha Hv G.
+  destruct (mb_punished _ _ _ _ _ _ _ _ _ H MC Ha eq_refl Hv G) as [v' [more [Hv' [_ [_ X]]]]].
+  exists v'. split; auto. rewrite (X T). reflexivity.
+Qed.
+
+(* --- SlashValidator succeeded => JailAndTombstoneValidator succeeds, given signing infos --- *)
+
+Lemma jail_after_slash : forall s p ds s1,
+  (forall v, getv s p = Some v -> v_sinfo v = true) ->
+  slash_validator s p ds = Ok s1 -> exists s2, jail_and_tombstone s1 p ds = Ok s2.
+Proof.
+  intros s p ds s1 SI H. destruct (slash_then_jail _ _ _ _ H) as [v [Hv [_ [_ J]]]].
+  rewrite J, (SI v Hv). simpl. eauto.
+Qed.
+
+(* with signing infos for everybody a rejected submission never wrote anything (nothing to roll back) *)
+Lemma never_dirty : forall s o,
+  (forall p v, getv s p = Some v -> v_sinfo v = true) -> dirty (step s o) = false.
+Proof.
+  intros s o SI. destruct o as [t|i w|c x|entry e|entry m|m]; unfold dirty; simpl; auto.
+  - destruct (getv s i); auto.
+  - destruct (c <? 0); auto.
+  - assert (D : forall kp, snd (handle_dv s kp e) = false).
+    { intro kp. unfold handle_dv. destruct (negb (dv_check s kp e =? 0)); auto.
+      destruct (slash_validator s (dv_target s e) (ds_of s (dv_cons e))) as [s1|] eqn:SV; auto.
+      destruct (jail_after_slash _ _ _ _ (SI _) SV) as [s2 J]. rewrite J. auto. }
+    unfold submit_dv. destruct (entry =? 0).
+    + destruct (negb (dv_vb_ok e) || (0 <=? dv_bid_cmp e)); simpl; auto.
+      destruct (negb (dv_valset_ok e)); simpl; auto. destruct (negb (dv_key_in_valset e)); simpl; auto.
+      specialize (D true). destruct (handle_dv s true e) as [[a b] d]. auto.
+    + specialize (D (dv_key_present e)). destruct (handle_dv s (dv_key_present e) e) as [[a b] d]. auto.
+  - unfold submit_mb. destruct ((entry =? 0) && negb (mb_vb_ok m)); simpl; auto.
+    assert (D : snd (handle_mb s m) = false).
+    { unfold handle_mb. destruct (negb (mb_check s m =? 0)); auto. destruct (get_byzantine m) as [l|]; auto.
+      destruct (getc s (mb_cons m)) as [c|]; auto. destruct (c_ds c) as [ds|]; auto.
+      destruct (punish s c ds l 0) as [[s' n]|x] eqn:P.
+      - destruct (n =? 0); auto.
+      - exfalso. destruct (proj1 (punish_err c ds l s 0)) as [a [_ [v [Hv [_ B]]]]]; eauto.
+        rewrite (SI _ _ Hv) in B. discriminate. }
+    destruct (handle_mb s m) as [[a b] d]. auto.
+  - destruct (get_byzantine m); auto.
+Qed.
+
+(* ---------------------------------------------------------------- clauses the faithful model refutes *)
+
+Definition vbonded (tokens lastpow : Z) : vrec := mkV 3 false 0 false tokens lastpow 0 0 true [].
+Definition vunbonded (tokens : Z) : vrec := mkV 1 false 0 false tokens 0 0 0 true [].
+Definition ds5 : dsparams := mkDS 50000000000000000 1000 true.       (* 5 %, 1000 ns, tombstone *)
+Definition ds100 : dsparams := mkDS 1000000000000000000 9000 true.   (* 100 % *)
+Definition cons_a : cons := mkC (Some 0) (Some 5) 10 (Some ds5) [].
+Definition cons_b : cons := mkC (Some 1) (Some 5) 3 (Some ds100) []. (* same chain id, other parameters *)
+Definition st2 : state := mkS 100 [vbonded 4000000 4; vunbonded 3000000] [cons_a; cons_b].
+
+Definition dv_ok (c addr height : Z) : dv :=
+  mkDV c true (-1) true true true true true true height [5] [5] addr.
+Definition dv_for (e : dv) (c : Z) : dv :=
+  mkDV c (dv_vb_ok e) (dv_bid_cmp e) (dv_valset_ok e) (dv_key_in_valset e) (dv_key_present e) (dv_key_addr_ok e)
+       (dv_hrt_eq e) (dv_addr_eq e) (dv_height e) (dv_sigA e) (dv_sigB e) (dv_addr e).
+Definition mb_ok (c chain client height : Z) (s1 s2 : list sigent) : mb :=
+  mkMB c true chain client true height true true true false true s1 s2.
+
+(* (1) every byzantine validator that staking knows is punished by an accepted misbehaviour *)
+Definition mb_all_signers_full : Prop :=
+  forall s entry m c ds l a v,
+    code (step s (OMB entry m)) = 0 -> mb_conditions s entry m c ds l -> In a l ->
+    getv s (resolve c a) = Some v ->
+    exists v', getv (st (step s (OMB entry m))) (resolve c a) = Some v' /\ v_jailed v' = true.
+
+Lemma mb_all_signers_refuted : ~ mb_all_signers_full.
+Proof.
+  intro F.
+  set (m := mb_ok 0 5 0 10 [mkSig 0 2 true; mkSig 1 2 true] [mkSig 0 2 true; mkSig 1 2 true]).
+  assert (MC : mb_conditions st2 0 m cons_a ds5 [0; 1]).
+  { exists 5, 0. repeat split; auto; vm_compute; congruence. }
+  assert (C0 : code (step st2 (OMB 0 m)) = 0) by (vm_compute; reflexivity).
+  assert (I1 : In 1 [0; 1]) by (simpl; auto).
+  assert (G1 : getv st2 (resolve cons_a 1) = Some (vunbonded 3000000)) by (vm_compute; reflexivity).
+  destruct (F st2 0 m cons_a ds5 [0; 1] 1 (vunbonded 3000000) C0 MC I1 G1) as [v' [Hv J]].
+  vm_compute in Hv. inversion Hv; subst v'. discriminate J.
+Qed.
+
+(* (2) every byzantine validator has a BlockIDFlagCommit signature in BOTH commits.  This clause was REFUTED by the
+   code before the repair "only validators that committed to both headers are byzantine" (finding
+   C07-nil-precommit-framing); with the repaired code it is a theorem. *)
+Lemma byz_committed_both : forall m l a,
+  get_byzantine m = Ok l -> In a l ->
+  exists e1 e2, In e1 (mb_sigs1 m) /\ In e2 (mb_sigs2 m) /\ g_addr e1 = a /\ g_addr e2 = a /\
+                g_flag e1 = F_COMMIT /\ g_flag e2 = F_COMMIT.
+Proof.
+  intros m l a H Ha. destruct (byzantine_set _ _ H) as [AM B].
+  destruct (mb_conflict m) eqn:C; [|destruct (mb_rounds_eq m) eqn:R].
+  - destruct (B (or_introl eq_refl)) as [I _]. apply I in Ha.
+    destruct Ha as [[e2 [I2 [S2 A2]]] [e1 [I1 [S1 A1]]]]. exists e1, e2.
+    unfold signed in S1, S2. apply Z.eqb_eq in S1, S2. auto 10.
+  - destruct (B (or_intror eq_refl)) as [I _]. apply I in Ha.
+    destruct Ha as [[e2 [I2 [S2 A2]]] [e1 [I1 [S1 A1]]]]. exists e1, e2.
+    unfold signed in S1, S2. apply Z.eqb_eq in S1, S2. auto 10.
+  - rewrite (AM (conj eq_refl eq_refl)) in Ha. destruct Ha.
+Qed.
+
+(* a validator none of whose keys committed to both headers keeps its record in an accepted misbehaviour *)
+Lemma mb_nil_absent_untouched : forall s entry m c ds l i,
+  code (step s (OMB entry m)) = 0 -> mb_conditions s entry m c ds l ->
+  (forall a, resolve c a = i ->
+     ~ ((exists e1, In e1 (mb_sigs1 m) /\ g_addr e1 = a /\ g_flag e1 = F_COMMIT) /\
+        (exists e2, In e2 (mb_sigs2 m) /\ g_addr e2 = a /\ g_flag e2 = F_COMMIT))) ->
+  getv (st (step s (OMB entry m))) i = getv s i.
+Proof.
+  intros s entry m c ds l i H MC N. eapply mb_frame; eauto.
+  intros [a [Ha [R _]]]. destruct (mb_conditions_inv _ _ _ _ _ _ MC) as [_ [B _]].
+  destruct (byz_committed_both _ _ _ B Ha) as [e1 [e2 [I1 [I2 [A1 [A2 [F1 F2]]]]]]].
+  apply (N a R). split; [exists e1 | exists e2]; auto.
+Qed.
+
+(* ---- PRE-FIX COPY (NOT used by run / step): GetByzantineValidators as it was before the repair, where every
+   signature that is not BlockIDFlagAbsent counted as "signed the header" ---- *)
+Definition signed_prefix (e : sigent) : bool := negb (g_flag e =? F_ABSENT).
+Fixpoint last_signer_prefix (a : Z) (l : list sigent) : option sigent :=
+  match l with
+  | [] => None
+  | e :: t =>
+    match last_signer_prefix a t with
+    | Some x => Some x
+    | None => if signed_prefix e && (g_addr e =? a) then Some e else None
+    end
+  end.
+Fixpoint byz_loop_prefix (s1 l2 : list sigent) : res (list Z) :=
+  match l2 with
+  | [] => Ok []
+  | e :: t =>
+    if negb (signed_prefix e) then byz_loop_prefix s1 t
+    else match last_signer_prefix (g_addr e) s1 with
+    | None => byz_loop_prefix s1 t
+    | Some e1 =>
+      if negb (g_ok e1) then Err E_SIG
+      else if negb (g_ok e) then Err E_SIG
+      else match byz_loop_prefix s1 t with
+           | Ok r => Ok (g_addr e :: r)
+           | Err x => Err x
+           end
+    end
+  end.
+Definition get_byzantine_prefix (m : mb) : res (list Z) :=
+  if negb (mb_lb_ok m) then Err E_LB
+  else if negb (mb_conflict m) && negb (mb_rounds_eq m) then Ok []
+  else byz_loop_prefix (mb_sigs1 m) (mb_sigs2 m).
+
+(* the witness of finding C07-nil-precommit-framing: header 1 = the real block of round 1 committed by validators
+   0..3; header 2 = a lunatic block of round 0 with validator set {0, 3}, committed by attacker 0 and carrying
+   validator 3's honest NIL precommit of round 0 *)
+Definition framing_witness : mb :=
+  mkMB 0 true 5 0 true 10 true true true true false
+       [mkSig 0 2 true; mkSig 1 2 true; mkSig 2 2 true; mkSig 3 2 true] [mkSig 0 2 true; mkSig 3 3 true].
+
+Definition byz_committed_both_prefix_full : Prop :=
+  forall m l a, get_byzantine_prefix m = Ok l -> In a l ->
+    exists e1 e2, In e1 (mb_sigs1 m) /\ In e2 (mb_sigs2 m) /\ g_addr e1 = a /\ g_addr e2 = a /\
+                  g_flag e1 = F_COMMIT /\ g_flag e2 = F_COMMIT.
+
+Lemma byz_committed_both_prefix_refuted : ~ byz_committed_both_prefix_full.
+Proof.
+  intro F.
+  assert (B : get_byzantine_prefix framing_witness = Ok [0; 3]) by (vm_compute; reflexivity).
+  assert (I3 : In 3 [0; 3]) by (simpl; auto).
+  destruct (F framing_witness [0; 3] 3 B I3) as [e1 [e2 [_ [I2 [_ [A2 [_ C2]]]]]]].
+  simpl in I2. destruct I2 as [I2|[I2|[]]]; subst e2; vm_compute in A2, C2; congruence.
+Qed.
+
+(* (3) JailAndTombstoneValidator cannot fail once SlashValidator has succeeded (comment in HandleConsumerMisbehaviour) *)
+Definition jail_after_slash_full : Prop :=
+  forall s p ds s1, slash_validator s p ds = Ok s1 -> exists s2, jail_and_tombstone s1 p ds = Ok s2.
+
+Lemma jail_after_slash_refuted : ~ jail_after_slash_full.
+Proof.
+  intro F.
+  set (s := mkS 0 [mkV 3 false 0 false 1000000 1 0 0 false []] []).
+  destruct (F s 0 ds5 _ eq_refl) as [s2 J]. vm_compute in J. discriminate J.
+Qed.
+
+(* (4) the parameters applied are determined by the evidence (the chain on which the infraction happened) *)
+Definition params_of_infraction_chain_full : Prop :=
+  forall s entry e c2,
+    code (step s (ODV entry e)) = 0 -> code (step s (ODV entry (dv_for e c2))) = 0 ->
+    ds_of s (dv_cons e) = ds_of s c2.
+
+Lemma params_of_infraction_chain_refuted : ~ params_of_infraction_chain_full.
+Proof.
+  intro F. assert (H := F st2 0 (dv_ok 0 0 10) 1 eq_refl eq_refl). vm_compute in H. discriminate H.
+Qed.
+
+(* (5) an accepted submission never shortens a jail period *)
+Definition jail_not_shortened_full : Prop :=
+  forall s entry e v v',
+    code (step s (ODV entry e)) = 0 -> getv s (dv_target s e) = Some v ->
+    getv (st (step s (ODV entry e))) (dv_target s e) = Some v' -> v_until v <= v_until v'.
+
+Lemma jail_not_shortened_refuted : ~ jail_not_shortened_full.
+Proof.
+  intro F.
+  set (s := mkS 100 [mkV 3 true 999999 false 4000000 4 0 0 true []] [mkC (Some 0) (Some 5) 10 (Some (mkDS 0 1000 false)) []]).
+  assert (H := F s 0 (dv_ok 0 0 10) _ _ eq_refl eq_refl eq_refl). vm_compute in H. apply H. reflexivity.
 Qed.
